@@ -310,7 +310,7 @@ static ColoquinteParameters genAllParams(vh::Rng &g, int &mode) {
       R.squareReoptOverlap = R.squareReoptSize > 1 ? g.range(1, R.squareReoptSize - 1) : g.range(1, 3);
       R.unidimensionalTransport = g.chance(1, 2);
       R.quadraticPenalty = g.chance(1, 3) ? 0.0 : logUni(g, 1e-5, 1.0);
-      R.sideMargin = g.chance(1, 3) ? 0.0 : uni(g, 0.0, 1.5);
+      R.sideMargin = g.chance(1, 3) ? 0.0 : (g.chance(1, 6) ? uni(g, 1.5, 100.0) : uni(g, 0.0, 1.5));  // accepted range 0..100
       R.coarseningLimit = logUni(g, 1.0, 1000.0);
       R.targetBlending = uni(g, -0.1, 0.9);
       auto &P = G.penalty;
